@@ -362,8 +362,11 @@ class TransactionManager(Elaboratable):
                         if called_method not in ret:
                             ret.add(called_method)
                             conditional_to_infect.append(called_method)
-                    ret.add(dep)
-                else:
+                    if dep not in ret:
+                        # dep can have simultaneous nested transactions of its own (e.g. a nested `condition`)
+                        ret.add(dep)
+                        conditional_to_infect.append(dep)
+                elif method not in method_map.transactions:
                     # dep is not ready dependent - semantics unclear
                     raise RuntimeError(
                         "Simultaneity constraint for conditionally called method "
